@@ -70,7 +70,7 @@ def _cases(path):
 
 
 LIVE_WAITS = ("pool.heartbeat", "ctl.conn_heartbeat", "ctl.heartbeat", "unsolicited.event", "unsolicited.stream0",
-              "unsolicited.unused_stream")
+              "unsolicited.unused_stream", "app.query.late_answer")
 
 
 class Family:
@@ -296,7 +296,7 @@ def run(ctx):
 
     # ---- 2. the real code executes them (child processes)
     par_in = 6 if quick else 10
-    par_live = 6 if quick else 8
+    par_live = 8
 
     def drive(which):
         td = time.time()
@@ -310,7 +310,7 @@ def run(ctx):
             specs = ["%s:%d:%d:1" % (fams[k].inp, par_in, 40) for k in ("frame", "val", "tstr") if fams[k].n]
             env = {"VF_C05_INPUTS": ",".join(specs), "VF_C05_PAR": par_in, "VF_C05_ASLIMIT": AS_LIMIT}
         else:
-            specs = ["%s:%d:%d:%d" % (fams["live"].inp, par_live, 4000, 16)] if fams["live"].n else []
+            specs = ["%s:%d:%d:%d" % (fams["live"].inp, par_live, 4000, 24)] if fams["live"].n else []
             env = {"VF_C05_INPUTS": ",".join(specs), "VF_C05_PAR": par_live, "VF_C05_MAXSTACK": LIVE_MAX_STACK}
         if not specs:
             return which, dict(inputs=0, shards=0, deaths=0, unconfirmed=0, flaky=None)
